@@ -6,6 +6,7 @@ import (
 
 	"github.com/fluffle/goirc/client"
 
+	"verif/explore"
 	"verif/vx"
 )
 
@@ -727,10 +728,79 @@ func c17VariantsJob() Job {
 	}}
 }
 
+// c17ReaderScenario: "never nil" with an observer that is not a handler. Another task of the application reads
+// Config().Me and Me() again and again while the welcome, a collision and renames are processed; every schedule
+// within the budgets.
+func c17ReaderScenario(tracking bool, welcomeNick string) *explore.Scenario {
+	sc := &explore.Scenario{
+		Family: "me-reader",
+		Name:   fmt.Sprintf("me-reader/tracking=%v/welcome=%s", tracking, welcomeNick),
+		Params: map[string]interface{}{"tracking": tracking, "welcome": welcomeNick},
+		Opt:    vx.Options{MaxSteps: 60000},
+	}
+	sc.Main = func(env *vx.Env) {
+		c := NewClient("bob", nil)
+		if tracking {
+			c.EnableStateTracking()
+		}
+		var vc *vx.Conn
+		env.ConnSetup = func(x *vx.Conn) { vc = x }
+		if err := c.Connect(); err != nil {
+			return
+		}
+		vx.Quiesce()
+		stop := false
+		done := vx.NewCounter("reader-done")
+		env.Go("reader", func() {
+			for i := 0; i < 40 && !stop; i++ {
+				if c.Config().Me == nil {
+					vx.Observe("ev", "config-me-nil")
+				}
+				vx.Yield()
+				if c.Me() == nil {
+					vx.Observe("ev", "me-nil")
+				}
+				vx.Yield()
+			}
+			done.Add(1)
+		})
+		vc.SendLines(":irc.example 433 * bob :Nickname is already in use.")
+		vc.SendLines(c17Welcome(welcomeNick))
+		vc.SendLines(":" + welcomeNick + "!ident@host NICK :robert")
+		vc.SendLines(":o!u@h NICK :p")
+		vx.Quiesce()
+		stop = true
+		done.WaitFor(1)
+		me := c.Me()
+		vx.Observe("ev", fmt.Sprintf("end me-nil=%v", me == nil))
+		vc.EOF()
+		vx.Quiesce()
+	}
+	sc.Check = func(o *vx.Outcome) []explore.Finding {
+		if fs := stdOutcome(o); fs != nil {
+			return fs
+		}
+		var fs []explore.Finding
+		for _, r := range o.Log("ev") {
+			switch r {
+			case "config-me-nil":
+				fs = append(fs, explore.Finding{Oracle: "config-me-nil", Msg: "another task of the application found Config().Me nil while server lines were being processed"})
+			case "me-nil", "end me-nil=true":
+				fs = append(fs, explore.Finding{Oracle: "me-nil", Msg: "another task of the application got nil from Me() while server lines were being processed"})
+			}
+			if len(fs) > 0 {
+				break
+			}
+		}
+		return fs
+	}
+	return sc
+}
+
 func init() {
 	Register(&Prop{
 		ID:   "C17",
-		Rule: "the MODEL (server's view: phase, current and previous nick, outstanding request, collisions so far) is walked breadth-first over the alphabet {433 for the requested nick / for another nick, 001 to the requested / another nick, client Nick(x) confirmed / refused / refused and the follow-up confirmed, forced NICK, other users' NICK between names equal to, prefixes of and one character from the client's current and previous nick; new nicks include the current one with the case of its first letter flipped}, keeping the shortest script P (shorter than the tier's length: quick 4, thorough 6; at most 3 collisions before the welcome) per distinct model state; for every such state the real client is run, from a fresh connect each time, on P+c for every view-changing symbol c, on P followed by all view-preserving symbols in a row (judged after each), and on P + that row + c; x tracking on/off x generator {default, s+\"^\", constant \"zed\"; s+\"^\" installed through Config() after Client() returned} x nick {bob, w9} x (tracked only) Me() read at every step / only after the last step. One case = one judged (configuration, script); failures are minimised by dropping view-preserving steps. Family default-generator: DefaultNewNick on all 256 last bytes x 12 prefixes (ASCII, Latin-1 / invalid UTF-8 / multi-byte)",
+		Rule: "the MODEL (server's view: phase, current and previous nick, outstanding request, collisions so far) is walked breadth-first over the alphabet {433 for the requested nick / for another nick, 001 to the requested / another nick, client Nick(x) confirmed / refused / refused and the follow-up confirmed, forced NICK, other users' NICK between names equal to, prefixes of and one character from the client's current and previous nick; new nicks include the current one with the case of its first letter flipped}, keeping the shortest script P (shorter than the tier's length: quick 4, thorough 6; at most 3 collisions before the welcome) per distinct model state; for every such state the real client is run, from a fresh connect each time, on P+c for every view-changing symbol c, on P followed by all view-preserving symbols in a row (judged after each), and on P + that row + c; x tracking on/off x generator {default, s+\"^\", constant \"zed\"; s+\"^\" installed through Config() after Client() returned} x nick {bob, w9} x (tracked only) Me() read at every step / only after the last step. One case = one judged (configuration, script); failures are minimised by dropping view-preserving steps. Family me-reader: a task that is not a handler reads Config().Me and Me() in a loop while a collision, the welcome (to the requested nick, to the nick the generator made, to another one) and two renames are processed, every schedule within two deviations. Family default-generator: DefaultNewNick on all 256 last bytes x 12 prefixes (ASCII, Latin-1 / invalid UTF-8 / multi-byte)",
 		Assumptions: []string{
 			"a 433 naming a nick the client does not hold leaves the server's view unchanged; the NICK the client sends in answer stays outstanding (the script may later address the welcome to it)",
 			"'character' in 'differs only in its last character' is a byte (IRC nicks are byte strings); DefaultNewNick(\"\") is only required not to panic",
@@ -754,6 +824,11 @@ func init() {
 				}
 			}
 			jobs = append(jobs, c17DefaultGenJob(), c17VariantsJob())
+			for _, tr := range []bool{false, true} {
+				for _, w := range []string{"bob", "boc", "other"} {
+					jobs = append(jobs, ExploreJob("C17", ExploreSpec{Sc: c17ReaderScenario(tr, w), Variants: []int{1, 2, 3}, Budgets: []explore.Budget{{0, 0}, {1, 0}, {2, 0}}, Cache: true}, 30))
+				}
+			}
 			return jobs
 		},
 	})
